@@ -511,14 +511,59 @@ def r4_5(repo: Repo) -> RuleResult:
     return rr
 
 
-RULES = [r4_1, r4_2, r4_3, r4_4, r4_5]
+# --------------------------------------------------------------------------- R4.6
+_WIDE = {"numpy.float64", "numpy.int64", "numpy.double", "numpy.longlong", "numpy.uint64", "float", "int", "numpy.intp"}
+
+
+def r4_6(repo: Repo) -> RuleResult:
+    rr = RuleResult("R4.6", "cell keys and coordinates are never staged in a container too narrow to hold them exactly", floor=8)
+    m = repo.module(COO_FILE)
+    for f in m.all_funcs:
+        # dtype of locally created arrays
+        dtypes = {}
+        for n in walk_no_nested(f.node):
+            if isinstance(n, ast.Assign) and isinstance(n.targets[0], ast.Name) and isinstance(n.value, ast.Call):
+                canon = repo.canonical(f.module, n.value.func)
+                if canon in ("numpy.zeros", "numpy.empty", "numpy.ones", "numpy.full", "numpy.zeros_like", "numpy.empty_like"):
+                    dt = None
+                    for k in n.value.keywords:
+                        if k.arg == "dtype":
+                            dt = repo.canonical(f.module, k.value) or norm(k.value)
+                    if dt is None and len(n.value.args) >= 2 and canon in ("numpy.zeros", "numpy.empty", "numpy.ones"):
+                        dt = repo.canonical(f.module, n.value.args[1]) or norm(n.value.args[1])
+                    dtypes[n.targets[0].id] = dt or "numpy.float64"
+        for n in walk_no_nested(f.node):
+            if not (isinstance(n, ast.Assign) and isinstance(n.targets[0], ast.Subscript) and isinstance(n.targets[0].value, ast.Name)):
+                continue
+            arr = n.targets[0].value.id
+            if arr not in dtypes:
+                continue
+            fields = {x.attr for x in ast.walk(n.value) if isinstance(x, ast.Attribute) and x.attr in ("key", "row", "col")
+                      and isinstance(x.value, ast.Name) and x.value.id in f.params}
+            if not fields:
+                continue
+            dt = dtypes[arr]
+            construct = "%s[...] = %s" % (arr, norm(n.value))
+            need_wide = "key" in fields
+            ok = dt in _WIDE or (not need_wide and dt in ("numpy.int32", "numpy.uint32"))
+            if ok:
+                rr.ok(f, construct, "staged in a %s buffer" % dt, n.lineno)
+            else:
+                rr.bad(f, construct,
+                       "%s values are copied into `%s`, created with dtype %s: a %s cannot hold them exactly (float32 is exact only up to "
+                       "2**24), so distinct cells compare equal / equal cells differ after the merge and events are credited to the wrong cell"
+                       % ("/".join(sorted(fields)), arr, dt, dt.rsplit(".", 1)[-1]), n.lineno)
+    return rr
+
+
+RULES = [r4_1, r4_2, r4_3, r4_4, r4_5, r4_6]
 
 CLAIM = (
     "R4.1 every call of a reallocate-and-return accumulator (coo_append) re-binds the result to the l-value it was "
     "called on; R4.2 the de-duplication key col + array_mul*row is injective (array_mul = n_windows*n_unique_tokens + c, "
     "c >= 0; col = context + i*n_unique_tokens) in all four build kernels (symbolic arithmetic); R4.3 worker chunks are "
     "exactly the generated boundary pairs and the boundaries are chained from 0 to len(data); R4.4 attribute-level "
-    "definite assignment along the fit / fit_transform helper sequences of each concrete class; R4.5 the hand-duplicated blocks of coo_utils (two flush triggers, three accumulate-or-advance steps, four buffer copies) agree with each other."
+    "definite assignment along the fit / fit_transform helper sequences of each concrete class; R4.5 the hand-duplicated blocks of coo_utils (two flush triggers, three accumulate-or-advance steps, four buffer copies) agree with each other; R4.6 precision flow: keys / coordinates are only staged in containers wide enough to hold them exactly."
 )
 NOT_DECIDED = (
     "that the merge/sort/grow arithmetic of coo_utils never overruns its buffers for all event volumes, and independence "
